@@ -819,6 +819,13 @@ class Evaluator:
         if isinstance(v, Poly):
             c = v.real_const()
             if c is not None: return c != 0
+            at_ = v.as_atom()
+            if isinstance(at_, tuple) and len(at_) == 3 and at_[0] == '.' and at_[1] == 'self' and s.self_class is not None:
+                # a field declared as a container: it is true when it is not empty
+                mem_ = s.prog.find_member(s.self_class[0], s.self_class[1], at_[2])
+                ann_ = ast.unparse(mem_[1].annotation) if mem_ and isinstance(mem_[1], ast.AnnAssign) else ''
+                if ann_.split('[')[0].split('.')[-1] in ('list', 'dict', 'set', 'tuple', 'List', 'Dict', 'Set', 'Tuple', 'Sequence', 'Mapping', 'frozenset'):
+                    return s.mkcmp('NotEq', Poly.atom(('len', tkey(v))))
             return s.mkcmp('NotEq', v)
         return v
 
@@ -908,6 +915,8 @@ class Evaluator:
             return r if isinstance(op, ast.In) else s.negate(r)
         if isinstance(op, (ast.Is, ast.IsNot)):
             if b is None and isinstance(a, Opq) and a.k and a.k[0] == 'exc': return isinstance(op, ast.IsNot)
+            if b is None and isinstance(a, Opq) and len(a.k) >= 3 and a.k[0] == 'dispatch' and isinstance(a.k[1], dict) and a.k[1] and all(v_ is not None and not isinstance(v_, Cond) for v_ in a.k[1].values()):
+                return isinstance(op, ast.IsNot)          # an entry of a table none of whose entries is None
             if b is None and isinstance(a, Poly) and s.self_class is not None and a.as_atom() == s.self_atom: return isinstance(op, ast.IsNot)     # the object itself is never None
             if b is None and isinstance(a, Poly) and not a.is_const():
                 at_ = a.as_atom()
@@ -2445,15 +2454,21 @@ class Evaluator:
                 if isinstance(op, ast.Gt): l, r, op = r, l, ast.Lt()
                 if isinstance(op, (ast.Lt, ast.NotEq)) and isinstance(l, ast.Name):
                     i = l.id
-                    last = st.body[-1]
-                    inc = (isinstance(last, ast.AugAssign) and isinstance(last.op, ast.Add) and isinstance(last.target, ast.Name) and last.target.id == i
-                           and isinstance(last.value, ast.Constant) and last.value.value == 1) or \
-                          (isinstance(last, ast.Assign) and len(last.targets) == 1 and isinstance(last.targets[0], ast.Name) and last.targets[0].id == i
-                           and isinstance(last.value, ast.BinOp) and isinstance(last.value.op, ast.Add)
-                           and {ast.unparse(last.value.left), ast.unparse(last.value.right)} == {i, '1'})
-                    body = st.body[:-1]
+                    def is_inc(x_):
+                        return (isinstance(x_, ast.AugAssign) and isinstance(x_.op, ast.Add) and isinstance(x_.target, ast.Name) and x_.target.id == i
+                                and isinstance(x_.value, ast.Constant) and x_.value.value == 1) or \
+                               (isinstance(x_, ast.Assign) and len(x_.targets) == 1 and isinstance(x_.targets[0], ast.Name) and x_.targets[0].id == i
+                                and isinstance(x_.value, ast.BinOp) and isinstance(x_.value.op, ast.Add)
+                                and {ast.unparse(x_.value.left), ast.unparse(x_.value.right)} == {i, '1'})
+                    pos_ = [k_ for k_, x_ in enumerate(st.body) if is_inc(x_)]
+                    inc = len(pos_) == 1
+                    p_ = pos_[0] if inc else 0
+                    before_, after_ = st.body[:p_], st.body[p_ + 1:]
+                    body = before_ + after_
                     stores_i = any(isinstance(n, ast.Name) and n.id == i and isinstance(n.ctx, ast.Store) for b in body for n in ast.walk(b))
-                    jumps = any(isinstance(n, (ast.Break, ast.Continue)) for b in body for n in ast.walk(b))
+                    # the counter is read only BEFORE it is advanced; a `continue` may only follow the advance (it then means the same in a for loop)
+                    used_after = any(isinstance(n, ast.Name) and n.id == i for b in after_ for n in ast.walk(b))
+                    jumps = any(isinstance(n, ast.Break) for b in body for n in ast.walk(b)) or any(isinstance(n, ast.Continue) for b in before_ for n in ast.walk(b)) or used_after
                     cur = s.lookup(i, env, mod) if i in _chain_names(env) else None
                     if inc and not stores_i and not jumps and isinstance(cur, Poly) and cur.is_zero():
                         nv = s.ev(r, env, mod, depth)
